@@ -95,4 +95,63 @@ def trace (cfg : Cfg) : St → List Ev → List St
   | _, [] => []
   | s, e :: es => step cfg s e :: trace cfg (step cfg s e) es
 
+/-! ### several valves in ONE slow sync group
+
+`SyncGroup(ec, [valve0, valve1, …])`: every valve is its own `Valve` object with its own configuration
+(`safeState`, `movingTime`), its own linked process variables (coil bit, switch bits) and its own `target`,
+`error` (`DeviceVar`s, in a slow group plain attributes of the device object) and `lastGood`.  The only thing
+they share is the clock.  One cycle of the group (`SyncGroup.update_devices`) calls every device's `update()`
+in order. -/
+
+structure Member where
+  cfg : Cfg
+  st : St
+deriving Repr, DecidableEq
+
+inductive GEv where
+  | reset (i : Nat)                     -- `valves[i].reset()`
+  | update (i : Nat)                    -- `valves[i].update()`
+  | cycle                               -- `SyncGroup.update_devices`: `update()` of every device
+  | setTarget (i v : Nat)               -- `valves[i].target = v`
+  | switches (i openSw closedSw : Nat)  -- process data of valve `i`'s switches
+  | advance (d : Nat)                   -- time passes (for all)
+deriving Repr, DecidableEq
+
+def Member.on (e : Ev) (u : Member) : Member := { u with st := step u.cfg u.st e }
+
+def modifyAt (f : Member → Member) : List Member → Nat → List Member
+  | [], _ => []
+  | u :: r, 0 => f u :: r
+  | u :: r, i + 1 => u :: modifyAt f r i
+
+def gstep (g : List Member) : GEv → List Member
+  | .reset i => modifyAt (Member.on .reset) g i
+  | .update i => modifyAt (Member.on .update) g i
+  | .cycle => g.map (Member.on .update)
+  | .setTarget i v => modifyAt (Member.on (.setTarget v)) g i
+  | .switches i o c => modifyAt (Member.on (.switches o c)) g i
+  | .advance d => g.map (Member.on (.advance d))
+
+def grun : List Member → List GEv → List Member
+  | g, [] => g
+  | g, e :: es => grun (gstep g e) es
+
+/-- the group after each event -/
+def gtrace : List Member → List GEv → List (List Member)
+  | _, [] => []
+  | g, e :: es => gstep g e :: gtrace (gstep g e) es
+
+/-- what valve `i` sees of a group event: the events addressed to it, the cycles, the clock -/
+def proj (i : Nat) : GEv → List Ev
+  | .reset j => if j = i then [.reset] else []
+  | .update j => if j = i then [.update] else []
+  | .cycle => [.update]
+  | .setTarget j v => if j = i then [.setTarget v] else []
+  | .switches j o c => if j = i then [.switches o c] else []
+  | .advance d => [.advance d]
+
+def projAll (i : Nat) : List GEv → List Ev
+  | [] => []
+  | e :: es => proj i e ++ projAll i es
+
 end Ebv.Valve
